@@ -416,3 +416,58 @@ func sendUDPReport(ex *Exec, st *State, fr *Frame, callee *ssa.Function, args []
 	ex.setComp(st, ck, s, sto(ex.comp(st, ck, s), z64(), ite(okc, app("bvadd", cnt, bvInt(1, 64)), cnt)))
 	return Sc{e, SRef}
 }
+
+// Archive log: (*zipArchiveWriter).AddFile(reader, name, modTime) appends the
+// pair (name, identity of what the reader delivers) to the ghost log $arc.
+// An *os.File delivers the current ghost content of the file it was opened on
+// (concurrent appends during the copy are outside the model: OS assumption of
+// C14); a bytes.Reader / bytes.Buffer delivers its bytes.
+func arcAddFile(ex *Exec, st *State, fr *Frame, callee *ssa.Function, args []Val, c *ssa.CallCommon, pos token.Pos) Val {
+	ex.vc.Trust("archive model: AddFile records (name, content identity of the reader) in the ghost log $arc; a failed call records nothing; the zip writer copies what it reads")
+	e := ex.vc.Fresh("arcerr", SRef)
+	okc := eq(e, z64())
+	ex.checkGhostAssign(st, "Ghost_arcCount", z64(), "$arc (the archive log)", pos)
+	ck := "Ghost_arcCount"
+	s := ArrS(SRef, BV(64))
+	cnt := sel(ex.comp(st, ck, s), z64())
+	ex.assume(st, app("bvsle", z64(), cnt))
+	// what does the reader deliver?
+	content := ex.vc.Fresh("arcsrc", BV(64))
+	src := sc(args[1]).T
+	if rec, has := ex.ifacePayload[src]; has {
+		if p, ok := rec.v.(Sc); ok {
+			switch {
+			case strings.Contains(rec.t.String(), "os.File"):
+				g := ex.gfile(st, ex.handleName(p.T))
+				content = g.content()
+			case strings.Contains(rec.t.String(), "bytes.Reader"):
+				ex.vc.DeclareFun("ReaderContent", []Sort{SRef}, BV(64))
+				content = app("ReaderContent", p.T)
+			}
+		}
+	}
+	nameS := ArrS(SRef, ArrS(BV(64), SStr))
+	contS := ArrS(SRef, ArrS(BV(64), BV(64)))
+	nm := ex.comp(st, "Ghost_arcName", nameS)
+	ct := ex.comp(st, "Ghost_arcContent", contS)
+	ex.setComp(st, "Ghost_arcName", nameS, sto(nm, z64(), ite(okc, sto(sel(nm, z64()), cnt, sc(args[2]).T), sel(nm, z64()))))
+	ex.setComp(st, "Ghost_arcContent", contS, sto(ct, z64(), ite(okc, sto(sel(ct, z64()), cnt, content), sel(ct, z64()))))
+	ex.setComp(st, ck, s, sto(ex.comp(st, ck, s), z64(), ite(okc, app("bvadd", cnt, bvInt(1, 64)), cnt)))
+	return Sc{e, SRef}
+}
+
+// os.Open(path): read-only handle on an existing file.
+func fsOpenRO(ex *Exec, st *State, fr *Frame, callee *ssa.Function, args []Val, c *ssa.CallCommon, pos token.Pos) Val {
+	ex.vc.Trust(fsTrust)
+	res := ex.valOrErrResults(st, c.Signature().Results(), "fs").(*Agg)
+	h, errT := sc(res.F[0]).T, sc(res.F[1]).T
+	name := ex.pathLast(sc(args[0]).T)
+	g := ex.gfile(st, name)
+	okc := eq(errT, z64())
+	ex.assume(st, implies(okc, g.exists()))
+	ex.assume(st, implies(okc, eq(ex.handleName(h), name)))
+	ex.vc.DeclareFun("ErrNotExist", []Sort{SRef}, SBool)
+	ex.assume(st, implies(app("ErrNotExist", errT), and(not(okc), not(g.exists()))))
+	ex.ghostBumpIf(st, "$ioFail", and(not(okc), g.exists()))
+	return res
+}
